@@ -312,6 +312,39 @@ func c02d(c *Ctx) {
 	if leaf == nil || pv == nil || pf == nil {
 		return
 	}
+	// closed world: a condition node (leaf or binary) gets its fields from the functions whose
+	// stores are judged row by row below and in C02.f / C02.h, and from nobody else — a
+	// "normalising" method on the node, in whatever package, would rewrite what these rules proved
+	{
+		judged := map[string]bool{"parseLeafBooleanExpression": true, "parseConditionVarOperator": true, "parseConditionFlagLikeOperator": true, "parseBooleanExpression": true, "parseRightSideExpression": true}
+		for _, u := range c.unitOf(leaf) {
+			judged[u.fn.Name()] = true
+		}
+		n := 0
+		for _, fn := range c.W.Funcs {
+			if isTestFunc(c.W, fn) || len(fn.Blocks) == 0 {
+				continue
+			}
+			k := 0
+			instrs(fn, func(in ssa.Instruction) {
+				st, ok := in.(*ssa.Store)
+				if !ok {
+					return
+				}
+				_, t, f, ok := fieldAddrOf(st.Addr)
+				if !ok || !(typeIs(t, "ast", "OperatorExpression") || typeIs(t, "ast", "BinaryExpression")) {
+					return
+				}
+				n++
+				if judged[fn.Name()] && c.W.PkgShort(fn) == "parser" {
+					return
+				}
+				k++
+				c.Bad(fmt.Sprintf("condition-nodes-closed/%s/%s#%d", c.W.FuncKey(fn), f, k), c.W.Pos(st.Pos()), c.W.FuncKey(fn)+" stores "+pretty(c.term(fn, st.Val))+" into "+f+" of a condition node: the meaning of a condition (operand, operator, comparison value) is set by the condition parsers, whose stores are judged one by one, and by nobody else")
+			})
+		}
+		c.Check(n >= 15, "condition-nodes-closed/census", "-", fmt.Sprintf("%d stores into condition nodes", n), fmt.Sprintf("only %d stores into condition nodes found", n))
+	}
 	type row struct {
 		label, field, value string
 		lits                []string // literals (substring match) that must hold
